@@ -48,8 +48,9 @@ variable (c : TCfg)
 structure RxOk : Prop where
   re : c.rx.bracesReq = bracesReqShape
   groups : c.rx.bracesReqGroups = [("expression", 2)]
+  ent : c.rx.entity2Re = entity2Shape
 
-theorem bracesSearch_eq (h : RxOk c) (pre b1 b2 : Str) (hpre : 36 ∉ pre) (hb2 : 125 ∉ b2) :
+theorem bracesSearch_eq (h : RxOk c) (pre b1 b2 : Str) (hpre : NoStart pre) (hb2 : 125 ∉ b2) :
     bracesSearch c.rx true (pre ++ 36 :: 123 :: (b1 ++ 125 :: b2)) =
       some (pre.length, { pos := pre.length + 2 + b1.length + 1,
                           caps := [(1, pre.length + 1, pre.length + 2 + b1.length + 1),
@@ -59,15 +60,15 @@ theorem bracesSearch_eq (h : RxOk c) (pre b1 b2 : Str) (hpre : 36 ∉ pre) (hb2 
   exact search_braces Gen.uni pre b1 b2 hpre hb2
 
 /-- one round of the candidate loop: the candidate is everything up to the last `}`; accepted, or cut there -/
-theorem candidate_round (h : RxOk c) (f k pos ms0 : Nat) (pre b1 b2 : Str) (hpre : 36 ∉ pre) (hb2 : 125 ∉ b2)
-    (hb1 : b1 ≠ []) :
-    candidate c (f + 1) { str := pre ++ 36 :: 123 :: (b1 ++ 125 :: b2), pos := pos } ms0 true false (k + 1) =
+theorem candidate_round (h : RxOk c) (f k pos ms0 : Nat) (pre b1 b2 : Str) (decode : Bool) (hpre : NoStart pre) (hb2 : 125 ∉ b2)
+    (hb1 : b1 ≠ []) (hamp : decode = true → 38 ∉ b1) :
+    candidate c (f + 1) { str := pre ++ 36 :: 123 :: (b1 ++ 125 :: b2), pos := pos } ms0 true decode (k + 1) =
       match compileTales c f { str := b1, pos := pos + (pre.length + 2) } with
       | .ok e => pure (.expr e { str := b1, pos := pos + (pre.length + 2) } b1, b1.length + 3)
       | .error (.template "ExpressionError" msg tok) =>
         match bracesSearch c.rx true (36 :: 123 :: b1) with
         | none => .error (.template "ExpressionError" msg tok)
-        | some _ => candidate c f { str := 36 :: 123 :: b1, pos := pos + pre.length } 0 true false k
+        | some _ => candidate c f { str := 36 :: 123 :: b1, pos := pos + pre.length } 0 true decode k
       | .error e => .error e := by
   have hgrp : tokGroup c.rx.bracesReqGroups
       { pos := pre.length + 2 + b1.length + 1,
@@ -94,8 +95,13 @@ theorem candidate_round (h : RxOk c) (f k pos ms0 : Nat) (pre b1 b2 : Str) (hpre
     have : pre.length + 2 + b1.length + 1 - 1 - pre.length = b1.length + 2 := by omega
     rw [this]
     simp only [List.take_succ_cons, take_pre]
+  have hdec : (if decode = true then (decodeEntities c.rx b1).map (fun s => ({ str := s, pos := pos + (pre.length + 2) } : Tok))
+      else some ({ str := b1, pos := pos + (pre.length + 2) } : Tok)) = some { str := b1, pos := pos + (pre.length + 2) } := by
+    cases decode with
+    | false => rfl
+    | true => simp only [if_true, decodeEntities_no_amp c.rx h.ent b1 (hamp rfl), Option.map]
   rw [candidate]
-  simp only [bracesSearch_eq c h pre b1 b2 hpre hb2, if_true, hgrp, hvar, hne, Bool.false_eq_true, if_false, hslice]
+  simp only [bracesSearch_eq c h pre b1 b2 hpre hb2, if_true, hgrp, hvar, hne, Bool.false_eq_true, if_false, hslice, hdec]
   have hlen : pre.length + 2 + b1.length + 1 - pre.length = b1.length + 3 := by omega
   simp only [hlen]
   cases compileTales c f { str := b1, pos := pos + (pre.length + 2) } with
@@ -130,31 +136,40 @@ def LongerRejected (g0 f : Nat) (e post : Str) (p0 : Nat) : Prop :=
     ∃ msg tok, compileTales c g { str := e ++ 125 :: x, pos := p0 } = .error (.template "ExpressionError" msg tok)
 
 /-- **C06 (the loop ends at the expression's own closing brace)** -/
-theorem C06_candidate_own_brace (h : RxOk c) (g0 : Nat) (e : Str) (he : e ≠ []) :
-    ∀ (n : Nat) (post pre : Str) (pos ms0 f k : Nat), post.length ≤ n → 36 ∉ pre → g0 + post.length ≤ f → post.length ≤ k →
+theorem C06_candidate_own_brace (h : RxOk c) (g0 : Nat) (e : Str) (he : e ≠ []) (decode : Bool) (hae : decode = true → 38 ∉ e) :
+    ∀ (n : Nat) (post pre : Str) (pos ms0 f k : Nat), post.length ≤ n → NoStart pre → g0 + post.length ≤ f → post.length ≤ k →
+      (decode = true → 38 ∉ post) →
       LongerRejected c g0 f e post (pos + (pre.length + 2)) →
       (∀ g, g0 ≤ g → g ≤ f → ∃ te, compileTales c g { str := e, pos := pos + (pre.length + 2) } = .ok te) →
       ∃ g te, g0 ≤ g ∧ g ≤ f ∧ compileTales c g { str := e, pos := pos + (pre.length + 2) } = .ok te ∧
-        candidate c (f + 1) { str := pre ++ 36 :: 123 :: (e ++ 125 :: post), pos := pos } ms0 true false (k + 1) =
+        candidate c (f + 1) { str := pre ++ 36 :: 123 :: (e ++ 125 :: post), pos := pos } ms0 true decode (k + 1) =
           .ok (.expr te { str := e, pos := pos + (pre.length + 2) } e, e.length + 3) := by
   intro n
   induction n with
   | zero =>
-    intro post pre pos ms0 f k hn hpre hf hk hrej hacc
+    intro post pre pos ms0 f k hn hpre hf hk hap hrej hacc
     have hp : post = [] := List.eq_nil_of_length_eq_zero (by omega)
     subst hp
     obtain ⟨te, hte⟩ := hacc f (by simpa using hf) (Nat.le_refl _)
     refine ⟨f, te, by simpa using hf, Nat.le_refl _, hte, ?_⟩
-    rw [candidate_round c h f k pos ms0 pre e [] hpre (by simp) he, hte]
+    rw [candidate_round c h f k pos ms0 pre e [] decode hpre (by simp) he hae, hte]
     rfl
   | succ n ih =>
-    intro post pre pos ms0 f k hn hpre hf hk hrej hacc
+    intro post pre pos ms0 f k hn hpre hf hk hap hrej hacc
     by_cases hmem : 125 ∈ post
     · obtain ⟨x, y, hxy, hy⟩ := exists_last_split post hmem
       have hlen : post.length = x.length + 1 + y.length := by rw [hxy]; simp; omega
       obtain ⟨msg, tok, hrj⟩ := hrej f x y (by omega) (Nat.le_refl _) hxy
       have hb1 : e ++ 125 :: x ≠ [] := by cases e <;> simp
-      have hround := candidate_round c h f k pos ms0 pre (e ++ 125 :: x) y hpre hy hb1
+      have hax : decode = true → 38 ∉ x := fun hd hm => hap hd (by rw [hxy]; simp [hm])
+      have hamp1 : decode = true → 38 ∉ e ++ 125 :: x := by
+        intro hd hm
+        rcases List.mem_append.mp hm with hm | hm
+        · exact hae hd hm
+        · rcases List.mem_cons.mp hm with hm | hm
+          · cases hm
+          · exact hax hd hm
+      have hround := candidate_round c h f k pos ms0 pre (e ++ 125 :: x) y decode hpre hy hb1 hamp1
       have hassoc : pre ++ 36 :: 123 :: (e ++ 125 :: post) = pre ++ 36 :: 123 :: ((e ++ 125 :: x) ++ 125 :: y) := by
         rw [hxy]; simp
       rw [hassoc, hround, hrj]
@@ -163,11 +178,11 @@ theorem C06_candidate_own_brace (h : RxOk c) (g0 : Nat) (e : Str) (he : e ≠ []
       have hs : bracesSearch c.rx true (36 :: 123 :: (e ++ 125 :: x)) ≠ none := by
         by_cases hx : 125 ∈ x
         · obtain ⟨x1, x2, hx12, hx2⟩ := exists_last_split x hx
-          have := bracesSearch_eq c h [] (e ++ 125 :: x1) x2 (by simp) hx2
+          have := bracesSearch_eq c h [] (e ++ 125 :: x1) x2 noStart_nil hx2
           have h2 : 36 :: 123 :: (e ++ 125 :: x) = [] ++ 36 :: 123 :: ((e ++ 125 :: x1) ++ 125 :: x2) := by
             rw [hx12]; simp
           rw [h2, this]; simp
-        · have := bracesSearch_eq c h [] e x (by simp) hx
+        · have := bracesSearch_eq c h [] e x noStart_nil hx
           simp only [List.nil_append] at this
           rw [this]; simp
       cases hbs : bracesSearch c.rx true (36 :: 123 :: (e ++ 125 :: x)) with
@@ -187,14 +202,14 @@ theorem C06_candidate_own_brace (h : RxOk c) (g0 : Nat) (e : Str) (he : e ≠ []
             have hacc' : ∀ g, g0 ≤ g → g ≤ f' → ∃ te, compileTales c g { str := e, pos := pos + pre.length + (([] : Str).length + 2) } = .ok te := by
               intro g hg hg2
               simpa [Nat.add_assoc] using hacc g hg (by omega)
-            obtain ⟨g, te, hg, hg2, hte, hcand⟩ := ih x [] (pos + pre.length) 0 f' k' (by omega) (by simp) (by omega) (by omega) hrej' hacc'
+            obtain ⟨g, te, hg, hg2, hte, hcand⟩ := ih x [] (pos + pre.length) 0 f' k' (by omega) noStart_nil (by omega) (by omega) hax hrej' hacc'
             refine ⟨g, te, hg, by omega, by simpa [Nat.add_assoc] using hte, ?_⟩
             simp only [List.nil_append] at hcand
             rw [hcand]
             simp [Nat.add_assoc]
     · obtain ⟨te, hte⟩ := hacc f (by omega) (Nat.le_refl _)
       refine ⟨f, te, by omega, Nat.le_refl _, hte, ?_⟩
-      rw [candidate_round c h f k pos ms0 pre e post hpre hmem he, hte]
+      rw [candidate_round c h f k pos ms0 pre e post decode hpre hmem he hae, hte]
       rfl
 
 theorem trailing_dollars_none (pre : Str) (hpre : 36 ∉ pre) : (pre.reverse.takeWhile (· == 36)).length = 0 := by
@@ -220,19 +235,20 @@ theorem undouble_id (s : Str) (h : 36 ∉ s) : undoubleDollar s = s := by
     · rename_i heq; simp only [List.cons.injEq] at heq; rw [← heq.1, ← heq.2, ih hs]
     · simp_all
 
-/-- **C06 (one `${…}` of a text)**: literal text without `$`, then `${e}`, then anything: the parts are the literal, the
-expression `e` — ended at its own closing brace — and the parts of what follows `${e}` -/
-theorem C06_interp_step (h : RxOk c) (g0 : Nat) (e : Str) (he : e ≠ []) (pre post : Str) (pos f : Nat)
-    (hpre : 36 ∉ pre) (hf : g0 + post.length ≤ f)
+/-- the general step: `pre` holds no `${` start and ends in an even number of `$` (possibly none): the literal is `pre` with its `$$`
+collapsed, then the expression `e`, then the parts of `post` -/
+theorem C06_interp_step_gen (h : RxOk c) (g0 : Nat) (e : Str) (he : e ≠ []) (pre post : Str) (pos f : Nat) (decode : Bool)
+    (hae : decode = true → 38 ∉ e) (hap : decode = true → 38 ∉ post)
+    (hpre : NoStart pre) (htr : (pre.reverse.takeWhile (· == 36)).length % 2 = 0) (hf : g0 + post.length ≤ f)
     (hrej : LongerRejected c g0 f e post (pos + (pre.length + 2)))
     (hacc : ∀ g, g0 ≤ g → g ≤ f → ∃ te, compileTales c g { str := e, pos := pos + (pre.length + 2) } = .ok te) :
     ∃ g te, g0 ≤ g ∧ g ≤ f ∧ compileTales c g { str := e, pos := pos + (pre.length + 2) } = .ok te ∧
-      compileInterp c (f + 2) { str := pre ++ 36 :: 123 :: (e ++ 125 :: post), pos := pos } true false =
-        (compileInterp c (f + 1) { str := post, pos := pos + pre.length + (e.length + 3) } true false).map
-          (fun rest => (if pre.isEmpty then [] else [IPart.lit pre]) ++
+      compileInterp c (f + 2) { str := pre ++ 36 :: 123 :: (e ++ 125 :: post), pos := pos } true decode =
+        (compileInterp c (f + 1) { str := post, pos := pos + pre.length + (e.length + 3) } true decode).map
+          (fun rest => (if pre.isEmpty then [] else [IPart.lit (undoubleDollar pre)]) ++
             [IPart.expr te { str := e, pos := pos + (pre.length + 2) } e] ++ rest) := by
-  obtain ⟨g, te, hg, hg2, hte, hcand⟩ := C06_candidate_own_brace c h g0 e he post.length post pre pos pre.length f
-    ((pre ++ 36 :: 123 :: (e ++ 125 :: post)).length) (Nat.le_refl _) hpre hf (by simp; omega) hrej hacc
+  obtain ⟨g, te, hg, hg2, hte, hcand⟩ := C06_candidate_own_brace c h g0 e he decode hae post.length post pre pos pre.length f
+    ((pre ++ 36 :: 123 :: (e ++ 125 :: post)).length) (Nat.le_refl _) hpre hf (by simp; omega) hap hrej hacc
   refine ⟨g, te, hg, hg2, hte, ?_⟩
   -- where the first `${` is
   have hsearch : ∃ st, bracesSearch c.rx true (pre ++ 36 :: 123 :: (e ++ 125 :: post)) = some (pre.length, st) := by
@@ -266,12 +282,187 @@ theorem C06_interp_step (h : RxOk c) (g0 : Nat) (e : Str) (he : e ≠ []) (pre p
     simp only [Tok.slice]
     rw [h3, List.take_of_length_le (by simp; omega)]
   rw [compileInterp]
-  have h01 : ((0 : Nat) == 1) = false := rfl
-  simp only [hnonempty, Bool.false_eq_true, if_false, hst, hpart, trailing_dollars_none pre hpre, undouble_id pre hpre,
-    Nat.zero_mod, h01, Bool.and_false]
+  have hodd : ((pre.reverse.takeWhile (· == 36)).length % 2 == 1) = false := by rw [htr]; rfl
+  simp only [hnonempty, Bool.false_eq_true, if_false, hst, hpart, hodd, Bool.and_false]
   simp only [bind, Except.bind, hcand, htext', Except.map]
-  cases compileInterp c (f + 1) { str := post, pos := pos + pre.length + (e.length + 3) } true false with
+  cases compileInterp c (f + 1) { str := post, pos := pos + pre.length + (e.length + 3) } true decode with
   | ok rest => cases pre <;> rfl
+  | error er => rfl
+
+/-- **C06 (one `${…}` of a text)**: literal text without `$`, then `${e}`, then anything: the parts are the literal, the
+expression `e` — ended at its own closing brace — and the parts of what follows `${e}` -/
+theorem C06_interp_step (h : RxOk c) (g0 : Nat) (e : Str) (he : e ≠ []) (pre post : Str) (pos f : Nat) (decode : Bool)
+    (hae : decode = true → 38 ∉ e) (hap : decode = true → 38 ∉ post)
+    (hpre : 36 ∉ pre) (hf : g0 + post.length ≤ f)
+    (hrej : LongerRejected c g0 f e post (pos + (pre.length + 2)))
+    (hacc : ∀ g, g0 ≤ g → g ≤ f → ∃ te, compileTales c g { str := e, pos := pos + (pre.length + 2) } = .ok te) :
+    ∃ g te, g0 ≤ g ∧ g ≤ f ∧ compileTales c g { str := e, pos := pos + (pre.length + 2) } = .ok te ∧
+      compileInterp c (f + 2) { str := pre ++ 36 :: 123 :: (e ++ 125 :: post), pos := pos } true decode =
+        (compileInterp c (f + 1) { str := post, pos := pos + pre.length + (e.length + 3) } true decode).map
+          (fun rest => (if pre.isEmpty then [] else [IPart.lit pre]) ++
+            [IPart.expr te { str := e, pos := pos + (pre.length + 2) } e] ++ rest) := by
+  have := C06_interp_step_gen c h g0 e he pre post pos f decode hae hap (noStart_of_no_dollar pre hpre)
+    (by rw [trailing_dollars_none pre hpre]) hf hrej hacc
+  rw [undouble_id pre hpre] at this
+  exact this
+
+/-- text without `$` is one literal part (or none when empty) -/
+theorem compileInterp_no_dollar (h : RxOk c) (f pos : Nat) (t : Str) (decode : Bool) (ht : 36 ∉ t) :
+    compileInterp c (f + 1) { str := t, pos := pos } true decode = .ok (if t.isEmpty then [] else [IPart.lit t]) := by
+  rw [compileInterp]
+  cases t with
+  | nil => rfl
+  | cons a r =>
+    have hs : bracesSearch c.rx true (a :: r) = none := by
+      unfold bracesSearch
+      simp only [if_true, h.re]
+      exact search_no_dollar Gen.uni (a :: r) ht
+    simp only [List.isEmpty_cons, Bool.false_eq_true, if_false, hs, undouble_id (a :: r) ht]
+    rfl
+
+/-- **C06 (text, one expression, text)**: `pre ++ "${" ++ e ++ "}" ++ post` with no `$` in `pre` and `post` is exactly three parts:
+the literal `pre`, the expression `e`, the literal `post` (empty literals are dropped) — whatever braces `e` and `post` hold -/
+theorem C06_text_expr_text (h : RxOk c) (g0 : Nat) (e : Str) (he : e ≠ []) (pre post : Str) (pos f : Nat) (decode : Bool)
+    (hae : decode = true → 38 ∉ e) (hap : decode = true → 38 ∉ post)
+    (hpre : 36 ∉ pre) (hpost : 36 ∉ post) (hf : g0 + post.length ≤ f)
+    (hrej : LongerRejected c g0 f e post (pos + (pre.length + 2)))
+    (hacc : ∀ g, g0 ≤ g → g ≤ f → ∃ te, compileTales c g { str := e, pos := pos + (pre.length + 2) } = .ok te) :
+    ∃ g te, g0 ≤ g ∧ g ≤ f ∧ compileTales c g { str := e, pos := pos + (pre.length + 2) } = .ok te ∧
+      compileInterp c (f + 2) { str := pre ++ 36 :: 123 :: (e ++ 125 :: post), pos := pos } true decode =
+        .ok ((if pre.isEmpty then [] else [IPart.lit pre]) ++ [IPart.expr te { str := e, pos := pos + (pre.length + 2) } e] ++
+             (if post.isEmpty then [] else [IPart.lit post])) := by
+  obtain ⟨g, te, hg, hg2, hte, hstep⟩ := C06_interp_step c h g0 e he pre post pos f decode hae hap hpre hf hrej hacc
+  refine ⟨g, te, hg, hg2, hte, ?_⟩
+  rw [hstep, compileInterp_no_dollar c h f _ post decode hpost]
+  rfl
+
+/-! ## `$$` and the parity of a run of `$` before `${` -/
+
+theorem replicate_reverse (k : Nat) (x : Nat) : (List.replicate k x).reverse = List.replicate k x := by
+  simp
+
+theorem takeWhile_run (k : Nat) (r : Str) (hr : r.head? ≠ some 36) :
+    ((List.replicate k 36 ++ r).takeWhile (· == 36)).length = k := by
+  induction k with
+  | zero =>
+    cases r with
+    | nil => rfl
+    | cons a t =>
+      have : a ≠ 36 := by simpa using hr
+      have hb : (a == 36) = false := by simpa using this
+      simp [List.takeWhile, hb]
+  | succ k ih =>
+    simp only [List.replicate_succ, List.cons_append, List.takeWhile, beq_self_eq_true, List.length_cons]
+    rw [ih]
+
+/-- the number of `$` at the end of `pre0 ++ "$…$"` is the length of the run when `pre0` holds no `$` -/
+theorem trailing_run (pre0 : Str) (k : Nat) (h : 36 ∉ pre0) :
+    ((pre0 ++ List.replicate k 36).reverse.takeWhile (· == 36)).length = k := by
+  rw [List.reverse_append, replicate_reverse]
+  apply takeWhile_run
+  cases hr : pre0.reverse with
+  | nil => simp
+  | cons a t =>
+    have ha : a ∈ pre0 := by
+      have : a ∈ pre0.reverse := by rw [hr]; simp
+      simpa using this
+    simp only [List.head?_cons, ne_eq, Option.some.injEq]
+    exact fun e => h (e ▸ ha)
+
+/-- `$$` collapses pairwise: a run of `k` dollars becomes `⌈k/2⌉` -/
+theorem undouble_replicate : ∀ (k : Nat), undoubleDollar (List.replicate k 36) = List.replicate ((k + 1) / 2) 36
+  | 0 => rfl
+  | 1 => rfl
+  | k + 2 => by
+    have : List.replicate (k + 2) 36 = 36 :: 36 :: List.replicate k 36 := rfl
+    rw [this, undoubleDollar, undouble_replicate k]
+    have : (k + 2 + 1) / 2 = (k + 1) / 2 + 1 := by omega
+    rw [this]
+    rfl
+
+theorem undouble_run (pre0 : Str) (k : Nat) (h : 36 ∉ pre0) :
+    undoubleDollar (pre0 ++ List.replicate k 36) = pre0 ++ List.replicate ((k + 1) / 2) 36 := by
+  induction pre0 with
+  | nil => simpa using undouble_replicate k
+  | cons c r ih =>
+    have hc : c ≠ 36 := fun e => h (by simp [e])
+    have hr : 36 ∉ r := fun e => h (by simp [e])
+    simp only [List.cons_append]
+    rw [undoubleDollar.eq_def]
+    split
+    · rename_i heq; simp only [List.cons.injEq] at heq; exact absurd heq.1.symm (fun e => hc e.symm)
+    · rename_i heq; simp only [List.cons.injEq] at heq; rw [← heq.1, ← heq.2, ih hr]
+    · rename_i heq; cases heq
+
+/-- **C06 (an even run of `$` before `${`)**: `pre0` (no `$`), `2·j` dollars, `${e}`: the dollars collapse to `j` literal ones
+and the expression is live -/
+theorem C06_dollar_run_even (h : RxOk c) (g0 : Nat) (e : Str) (he : e ≠ []) (pre0 post : Str) (j pos f : Nat) (decode : Bool)
+    (hae : decode = true → 38 ∉ e) (hap : decode = true → 38 ∉ post)
+    (hpre : 36 ∉ pre0) (hf : g0 + post.length ≤ f)
+    (hrej : LongerRejected c g0 f e post (pos + ((pre0 ++ List.replicate (2 * j) 36).length + 2)))
+    (hacc : ∀ g, g0 ≤ g → g ≤ f → ∃ te, compileTales c g { str := e, pos := pos + ((pre0 ++ List.replicate (2 * j) 36).length + 2) } = .ok te) :
+    ∃ g te, g0 ≤ g ∧ g ≤ f ∧
+      compileInterp c (f + 2) { str := (pre0 ++ List.replicate (2 * j) 36) ++ 36 :: 123 :: (e ++ 125 :: post), pos := pos } true decode =
+        (compileInterp c (f + 1) { str := post, pos := pos + (pre0 ++ List.replicate (2 * j) 36).length + (e.length + 3) } true decode).map
+          (fun rest => (if (pre0 ++ List.replicate (2 * j) 36).isEmpty then [] else [IPart.lit (pre0 ++ List.replicate j 36)]) ++
+            [IPart.expr te { str := e, pos := pos + ((pre0 ++ List.replicate (2 * j) 36).length + 2) } e] ++ rest) := by
+  obtain ⟨g, te, hg, hg2, _, hstep⟩ := C06_interp_step_gen c h g0 e he (pre0 ++ List.replicate (2 * j) 36) post pos f decode hae hap
+    (noStart_run pre0 (2 * j) hpre) (by rw [trailing_run pre0 (2 * j) hpre]; omega) hf hrej hacc
+  refine ⟨g, te, hg, hg2, ?_⟩
+  rw [undouble_run pre0 (2 * j) hpre] at hstep
+  have : (2 * j + 1) / 2 = j := by omega
+  rw [this] at hstep
+  exact hstep
+
+/-- **C06 (`$$` in front of `${`: the expression is escaped)**: `pre0` (no `$`), an odd number `2·j + 1` of dollars, then
+`${e}…`: the `$` of the would-be `${` pairs with the dollar before it — the literal is `pre0` and `j + 1` dollars, and what
+follows is read on from the `{`, which is ordinary text: nothing of `e` is compiled here -/
+theorem C06_dollar_run_odd (h : RxOk c) (e pre0 post : Str) (j pos f : Nat) (decode : Bool) (hpre : 36 ∉ pre0) :
+    compileInterp c (f + 1) { str := (pre0 ++ List.replicate (2 * j + 1) 36) ++ 36 :: 123 :: (e ++ 125 :: post), pos := pos } true decode =
+      (compileInterp c f { str := 123 :: (e ++ 125 :: post), pos := pos + (pre0 ++ List.replicate (2 * j + 1) 36).length + 1 } true decode).map
+        (fun rest => [IPart.lit (pre0 ++ List.replicate (j + 1) 36)] ++ rest) := by
+  generalize hP : pre0 ++ List.replicate (2 * j + 1) 36 = pre
+  have hns : NoStart pre := by rw [← hP]; exact noStart_run pre0 (2 * j + 1) hpre
+  have htr : (pre.reverse.takeWhile (· == 36)).length = 2 * j + 1 := by rw [← hP]; exact trailing_run pre0 (2 * j + 1) hpre
+  have hund : undoubleDollar pre = pre0 ++ List.replicate (j + 1) 36 := by
+    rw [← hP, undouble_run pre0 (2 * j + 1) hpre]
+    have : (2 * j + 1 + 1) / 2 = j + 1 := by omega
+    rw [this]
+  have hne : pre.isEmpty = false := by
+    rw [← hP]
+    cases pre0 with
+    | nil => simp [List.replicate_succ]
+    | cons _ _ => rfl
+  have hsearch : ∃ st, bracesSearch c.rx true (pre ++ 36 :: 123 :: (e ++ 125 :: post)) = some (pre.length, st) := by
+    by_cases hm : 125 ∈ post
+    · obtain ⟨x, y, hxy, hy⟩ := exists_last_split post hm
+      have := bracesSearch_eq c h pre (e ++ 125 :: x) y hns hy
+      have h2 : pre ++ 36 :: 123 :: (e ++ 125 :: post) = pre ++ 36 :: 123 :: ((e ++ 125 :: x) ++ 125 :: y) := by
+        rw [hxy]; simp
+      exact ⟨_, by rw [h2, this]⟩
+    · exact ⟨_, bracesSearch_eq c h pre e post hns hm⟩
+  obtain ⟨st, hst⟩ := hsearch
+  have hnonempty : (pre ++ 36 :: 123 :: (e ++ 125 :: post)).isEmpty = false := by cases pre <;> rfl
+  have hpart : (Tok.slice { str := pre ++ 36 :: 123 :: (e ++ 125 :: post), pos := pos } 0 (some pre.length)).str = pre := by
+    simp only [Tok.slice, List.drop_zero, Nat.sub_zero]
+    exact take_pre pre _
+  have hslice1 : Tok.slice { str := pre ++ 36 :: 123 :: (e ++ 125 :: post), pos := pos } pre.length none =
+      { str := 36 :: 123 :: (e ++ 125 :: post), pos := pos + pre.length } := by
+    simp only [Tok.slice]
+    rw [drop_pre0, List.take_of_length_le (by simp)]
+  have hslice2 : Tok.slice { str := 36 :: 123 :: (e ++ 125 :: post), pos := pos + pre.length } 1 none =
+      { str := 123 :: (e ++ 125 :: post), pos := pos + pre.length + 1 } := by
+    simp only [Tok.slice, List.drop_succ_cons, List.drop_zero]
+    rw [List.take_of_length_le (by simp)]
+  rw [compileInterp]
+  have hodd : ((2 * j + 1) % 2 == 1) = true := by
+    have : (2 * j + 1) % 2 = 1 := by omega
+    rw [this]; rfl
+  simp only [hnonempty, Bool.false_eq_true, if_false, hst, hpart, htr, hodd, hne, Bool.not_false, Bool.and_self, if_true,
+    hslice1, hslice2, hund]
+  simp only [bind, Except.bind, Except.map]
+  cases compileInterp c f { str := 123 :: (e ++ 125 :: post), pos := pos + pre.length + 1 } true decode with
+  | ok rest => rfl
   | error er => rfl
 
 end ChamVerif.C06Loop
@@ -282,7 +473,7 @@ open ChamVerif
 /-- a configuration with the regenerated regexes -/
 def c0 : TCfg := { rx := Rx.live, q := Quirks.current, oracle := [] }
 
-theorem c0_ok : RxOk c0 := ⟨tie_bracesReq.1, tie_bracesReq.2⟩
+theorem c0_ok : RxOk c0 := ⟨tie_bracesReq.1, tie_bracesReq.2, tie_entity2⟩
 
 def isExprErr : CRes TExpr → Bool
   | .error (.template cls _ _) => cls == "ExpressionError"
